@@ -746,7 +746,7 @@ func (lh *levelHandler) searchL0SST(key []byte) (*kv.Entry, error) {
 			utils.CompareUserKeys(key, table.MaxKey()) > 0 {
 			continue
 		}
-		if table.MaxVersionVal() <= version {
+		if !supersedes(table.MaxVersionVal(), version) {
 			continue
 		}
 		if entry, err := table.Search(key, &version); err == nil {
@@ -773,7 +773,7 @@ func (lh *levelHandler) searchLNSST(key []byte, maxVersion *uint64) (*kv.Entry, 
 	if table == nil {
 		return nil, utils.ErrKeyNotFound
 	}
-	if maxVersion != nil && table.MaxVersionVal() <= *maxVersion {
+	if maxVersion != nil && !supersedes(table.MaxVersionVal(), *maxVersion) {
 		return nil, utils.ErrKeyNotFound
 	}
 	if maxVersion == nil {
